@@ -6,6 +6,8 @@ from __future__ import annotations
 
 import calendar
 import itertools
+import json
+import os
 import re
 
 from .. import gen, gw, lib
@@ -24,7 +26,9 @@ _STATE_RE = re.compile(r"^(pv=\S+) (proto=\S+) nodes=\[(.*)\] ibuf=\[(.*)\] sbuf
 
 
 def split_state(s: str):
-    m = _STATE_RE.match(s)
+    """The parts of a rendered state (the implementation's or the model's); the held commands grouped per node
+    (`gw.canon_state`: where they are kept, and in which order entries of different nodes went in, is not compared)."""
+    m = _STATE_RE.match(gw.canon_state(s))
     if not m:
         return {"pv": s, "proto": "", "nodes": "", "ibuf": "", "sbuf": ""}
     return {"pv": m.group(1), "proto": m.group(2), "nodes": m.group(3), "ibuf": m.group(4), "sbuf": m.group(5)}
@@ -89,7 +93,7 @@ def run_both(hists, corr: Corr, ctx, view: str, what: str, spec=None):
         pos += n
         for i, (o, (mout, mstate)) in enumerate(zip(io, mo)):
             iout = o["out"] + gw.render_writes(o["writes"]) if i else "init W"
-            a, bb = project(view, iout, o["state"]), project(view, mout, mstate)
+            a, bb = project(view, iout, o["state"]), project(view, mout, gw.align_state(o["state"], mstate))
             if a != bb:
                 short = Hist(h.version, h.metric, h.preload, h.ops[:i])
                 corr.disagree(what, {"history": short.to_json(), "step": i, "view": view, "impl": list(a), "model": list(bb)})
@@ -1049,10 +1053,13 @@ def awake_twins(hists, per_history=25):
     return index, twins
 
 
-def sleepy_history(rng, version, length, fault_p=0.0, cancel_p=0.0, payloads=None, internal_types=(22, 32, 33, 21, 0)):
+def sleepy_history(rng, version, length, fault_p=0.0, cancel_p=0.0, payloads=None, internal_types=(22, 32, 33, 21, 0),
+                   reconnect_p=0.0, session_op=gw.SESSION):
     """Sends and wake / non-wake messages over 3 nodes x 2 children x 2 types.  `payloads`: the values of the set
     commands are drawn from this pool instead of being small numbers.  `internal_types`: the internal messages the nodes
-    send besides their wake signal."""
+    send besides their wake signal.  `reconnect_p`: a step with scripted write faults
+    is followed, with this probability, by 1-3 reconnects (the error leaves the gateway context, the application enters
+    it again); `session_op`: what a reconnect is (`gw.SESSION`, or `gw.SESSION_FILE` = with a persistence file)."""
     h = Hist(version, True)
     for n in (1, 2, 3):
         h.preload.append(("node", n, 17, "2.0", "", "", 0, 0, False, rng.random() < 0.6))
@@ -1076,17 +1083,20 @@ def sleepy_history(rng, version, length, fault_p=0.0, cancel_p=0.0, payloads=Non
         elif r < 0.95:
             op = ("recv", f"{n};255;0;0;17;2.0", (), gw.DEFAULT_TIME)
         elif r < 0.97:
-            op = gw.SESSION          # the application reconnects: whatever is parked stays parked
+            op = session_op          # the application reconnects: whatever is parked stays parked
         elif r < 0.985:
             # the (sleeping) node itself asks for or reports a value, possibly the very key a command is parked for
             op = ("recv", f"{n};{rng.choice((0, 1))};{rng.choice((1, 2))};{rng.choice((0, 1))};{rng.choice((0, 2))};{rng.choice(('', '7', '55'))}",
                   (), gw.DEFAULT_TIME)
         else:
             op = ("recv", f"{n};{rng.choice((0, 1))};0;0;6;d", (), gw.DEFAULT_TIME)
-        if op[0] != "session" and fault_p and rng.random() < fault_p:
+        faulty = op[0] != "session" and fault_p and rng.random() < fault_p
+        if faulty:
             f = gw.gen_faults(rng, cancel_p)
             op = (op[0], op[1], f, op[3]) if op[0] == "recv" else (op[0], op[1], op[2], f)
         h.ops.append(op)
+        if faulty and reconnect_p and rng.random() < reconnect_p:
+            h.ops += [session_op] * rng.choice((1, 1, 2, 3))
     return h
 
 
@@ -1313,16 +1323,150 @@ def run_c07(ctx) -> Corr:
 # ---- C08 --------------------------------------------------------------------------------------
 
 
+def wake_op(version: str, node: int, faults=()):
+    return ("recv", f"{node};255;3;0;{32 if version == '2.2' else 22};5", tuple(faults), gw.DEFAULT_TIME)
+
+
+def drain_ops(nodes, version=None):
+    """Fault-free wakes of every node (the wake signal of `version`, or of every version when the history may have
+    changed it): what the gateway still holds at the end of a history is OBSERVED BY WHAT THESE WRITE - on the
+    implementation and on the model alike, wherever the implementation keeps it."""
+    if version is not None:
+        return [wake_op(version, n) for n in nodes]
+    return [("recv", f"{n};255;3;0;{t};5", (), gw.DEFAULT_TIME) for n in nodes for t in (22, 32)]
+
+
+def reconnect_histories(ctx):
+    """The failure 'is reported to the caller of listen' - who, as a rule, lets it leave `async with gateway:` and enters
+    the same Gateway object again to reconnect.  For 1-4 parked commands over 1-2 nodes x the position of the write of
+    node 1's release that does not complete (fails, or the listener is cancelled there) x 1-3 re-entries x a gateway
+    WITH a persistence file (every enter loads the file: fresh Node objects) or without one; optionally the next wake
+    is interrupted too and the application reconnects once more; then every node wakes, and node 1 once more."""
+    hists = []
+    count = 0
+    for v in V20:
+        for k in range(1, 5):
+            for n_nodes in (1, 2):
+                keys = [(1 + (j % n_nodes), j % 2, j // 2 * 2) for j in range(k)]
+                mine = sum(1 for key in keys if key[0] == 1)
+                for pos in range(mine):
+                    for kind in (True, gw.CANCEL):
+                        for reenters in (1, 2, 3):
+                            for store in (gw.SESSION_FILE, gw.SESSION):
+                                count += 1
+                                j = (count - 1) // 2      # index among the histories of this kind of store
+                                # quick tier: one history in seven of either kind (7 is prime to the cycles of kind and
+                                # re-entries, so every combination comes up, at rotating versions / positions)
+                                if ctx.tier == "quick" and j % 7 != (ctx.seed + (3 if store is gw.SESSION else 0)) % 7:
+                                    continue
+                                h = Hist(v, True)
+                                for n in range(1, n_nodes + 1):
+                                    h.preload.append(("node", n, 17, "2.0", "", "", 0, 0, False, True))
+                                    for c in (0, 1):
+                                        h.preload.append(("child", n, c, c, 6, ""))
+                                for (n, c, t) in keys:
+                                    h.ops.append(("send", (n, c, 1, 0, t, f"v{n}{c}{t}"), True, ()))
+                                h.ops.append(wake_op(v, 1, [False] * pos + [kind]))
+                                h.ops += [store] * reenters
+                                if (j // 7) % 2 and mine - pos > 1:
+                                    # the first command still waiting goes out, the next write is interrupted as well
+                                    h.ops.append(wake_op(v, 1, [False, True if kind == gw.CANCEL else gw.CANCEL]))
+                                    h.ops.append(store)
+                                h.ops += drain_ops(range(1, n_nodes + 1), v) + [wake_op(v, 1)]
+                                hists.append(h)
+    return hists
+
+
+def _c08_oracle(corr: Corr, h: Hist, io) -> None:
+    """C08 restated over one observed trace.
+
+    (a) From what an application can see alone - the outcome of every call, the lines handed to the transport, the
+    registry's sleeping flags: a set command sent for a sleeping node that returned without writing is waiting; at a
+    wake of its node every line written successfully must be one that was waiting (else it is written AGAIN, or was
+    never held), a write that did not complete must be reported as such, and when every write of the wake completed
+    and the step ended normally nothing may still be waiting for that node (else it is LOST: a later wake of the
+    node was owed it).  Leaving and re-entering the gateway context in between changes none of this.
+    (b) Where the internal store of held commands is found (`gw.held_items`), additionally per wake: written
+    successfully + still stored == stored before, as multisets, and other nodes' entries untouched."""
+    waiting: dict = {}
+    for i, op in enumerate(h.ops):
+        before, o = io[i], io[i + 1]
+        case = {"history": Hist(h.version, h.metric, h.preload, h.ops[: i + 1]).to_json(), "outcome": o["out"],
+                "writes": [list(w) for w in o["writes"]]}
+        if op[0] == "session":
+            corr.count("oracle: left and re-entered the context" + (" (persistence file: registry reloaded)" if op[1] == "file" else "")
+                       + (" with commands waiting" if waiting else ""))
+            if o["out"] != "ok":
+                corr.count("oracle: re-entering the context failed (history not judged further)")
+                return
+            continue
+        if op[0] == "assign" or len(op) > 4:
+            return      # the caller's own objects, re-addressed while held: C12's oracle
+        if op[0] == "send":
+            f = op[1]
+            if f is None or f[2] != 1:
+                continue
+            node = before["nodes"].get(f[0])
+            if op[2] and node is not None and node["sleeping"] and o["out"] == "ok" and not o["writes"]:
+                waiting[(f[0], f[1], f[4])] = f
+            continue
+        f = fields_of(op[1])
+        if not (is_wake(before["proto"], f) and f[0] in before["nodes"]):
+            continue
+        ok_written = [w[0] for w in o["writes"] if w[1] and w[0].split(";")[2] == "1"]
+        failed = [w for w in o["writes"] if not w[1]]
+        mine = {k: line_of(x) for k, x in waiting.items() if k[0] == f[0]}
+        for line in ok_written:
+            k = next((k for k, l in mine.items() if l == line), None)
+            if k is None:
+                corr.violate("a command was written at a wake that was not waiting for it: it had been written successfully "
+                             "before (repeated), or was never held", {**case, "line": line, "waiting_for_the_node": sorted(mine.values())})
+                return
+            del mine[k], waiting[k]
+        if failed and o["out"] != abort_outcome(op[2], o["writes"]):
+            corr.violate("a write that did not complete during the release (failed, or the listener cancelled "
+                         "there) was not reported to the caller of listen as such", case)
+            return
+        if not failed and o["out"].startswith("ok") and mine:
+            corr.violate("commands held for a node and not yet written successfully were not written at its wake although every "
+                         "write of that wake completed (lost)", {**case, "still_owed_to_the_node": sorted(mine.values())})
+            return
+        if failed:
+            corr.count("oracle: release interrupted, " + ("nothing" if not mine else "commands") + " still owed to the node")
+        if not (before.get("sbuf_seen", True) and o.get("sbuf_seen", True)):
+            corr.count("oracle: the internal store of held commands was not found (judged by the trace alone)")
+            continue
+        mine_before = [(tuple(k), p) for k, p in before["sbuf"] if k[0] == f[0]]
+        mine_after = [(tuple(k), p) for k, p in o["sbuf"] if k[0] == f[0]]
+        want_all = sorted(f"{k[0]};{k[1]};1;{k[2]};{p}" for k, p in mine_before)
+        got_all = sorted([re.sub(r"^(\d+;\d+;1);[01];(.*)\n$", r"\1;\2", w) for w in ok_written]
+                         + [f"{k[0]};{k[1]};1;{k[2]};{p}" for k, p in mine_after])
+        if want_all != got_all:
+            corr.violate("buffered commands were lost or repeated when a write failed during the release", {**case, "before": want_all, "after+written": got_all})
+            return
+        others_b = [x for x in before["sbuf"] if x[0][0] != f[0]]
+        others_a = [x for x in o["sbuf"] if x[0][0] != f[0]]
+        if others_b != others_a:
+            corr.violate("the release touched another node's buffered commands", case)
+            return
+        if sorted((tuple(k), p) for k, p in o["sbuf"]) != sorted((k, x[5]) for k, x in waiting.items()):
+            corr.count("oracle: the trace's bookkeeping and the internal store differ after a wake")
+
+
 def run_c08(ctx) -> Corr:
     corr = Corr("C08", "fault enumeration on the real code: every subset of failing write positions for 1-4 parked commands "
-                "over 1-2 nodes across up to 3 wakes, versions 2.0/2.1/2.2 (complete), plus random sleepy histories with write "
-                "faults; compared on the writes view with the Lean model; oracle = conservation: written-successfully + still "
-                "parked == initially parked (as multisets), failure reported, nothing written twice. non-trivial = distinct "
-                "(parked set, fault schedule) with at least one failing write")
+                "over 1-2 nodes across up to 3 wakes, versions 2.0/2.1/2.2 (complete); reconnects: the interrupted release's "
+                "error leaves the gateway context and the same object is entered again 1-3 times, with and without a "
+                "persistence file (real file, real reload: every Node object replaced), optionally interrupted and "
+                "reconnected once more; random sleepy histories with write faults and such reconnects; every history ends "
+                "with a fault-free wake of every node, so what is still held is observed by what gets written; compared on "
+                "the writes view with the Lean model (held commands grouped per node; the internal store only where it is "
+                "found); oracle = from the trace alone: written at a wake only what was waiting (nothing twice), failure "
+                "reported, nothing owed after a wake whose writes all completed (nothing lost) - plus, where the internal "
+                "store is found, conservation: written-successfully + still parked == parked before (as multisets). "
+                "non-trivial = distinct (parked set, fault schedule) with at least one failing write")
     hists = [h for _, h in corpus_histories("C08")]
-    meta = []
     for v in V20:
-        wake_t = 32 if v == "2.2" else 22
         for k in range(1, 5):
             for n_nodes in (1, 2):
                 keys = [(1 + (j % n_nodes), j % 2, j // 2 * 2) for j in range(k)]
@@ -1340,105 +1484,158 @@ def run_c08(ctx) -> Corr:
                             # give each wake of node 1 the next chunk of the fault schedule
                             take = fl[: k]
                             fl = fl[1:]
-                            h.ops.append(("recv", f"1;255;3;0;{wake_t};5", tuple(take), gw.DEFAULT_TIME))
+                            h.ops.append(wake_op(v, 1, take))
+                        h.ops += drain_ops(range(1, n_nodes + 1), v)
                         hists.append(h)
-                        meta.append((keys, faults))
-        if ctx.tier == "quick":
-            pass
     if ctx.tier == "quick":
         step = max(1, len(hists) // 2500)
         hists = hists[::step]
+    rec = reconnect_histories(ctx)
+    corr.count("histories: reconnect after an interrupted release, gateway with a persistence file", sum(1 for h in rec if gw.has_file(h)))
+    corr.count("histories: reconnect after an interrupted release, no persistence file", sum(1 for h in rec if not gw.has_file(h)))
+    hists += rec
     rng = lib.rng_for(ctx.seed, "c08")
     for i in range(100 if ctx.tier == "quick" else 2000):
-        hists.append(sleepy_history(rng, V20[i % 3], rng.randint(5, 30), fault_p=0.3, cancel_p=0.3 if i % 2 else 0.0))
+        h = sleepy_history(rng, V20[i % 3], rng.randint(5, 30), fault_p=0.3, cancel_p=0.3 if i % 2 else 0.0,
+                           reconnect_p=0.5, session_op=gw.SESSION_FILE if i % 4 == 0 else gw.SESSION)
+        h.ops += drain_ops((1, 2, 3))
+        hists.append(h)
     impl = run_both(hists, corr, ctx, "writes", "writes view")
     for h, io in zip(hists, impl):
-        parked = {}
-        for i, op in enumerate(h.ops):
-            before, o = io[i], io[i + 1]
-            case = {"history": Hist(h.version, h.metric, h.preload, h.ops[: i + 1]).to_json(), "outcome": o["out"],
-                    "writes": [list(w) for w in o["writes"]]}
-            if op[0] == "recv":
-                f = fields_of(op[1])
-                if is_wake(before["proto"], f) and f[0] in before["nodes"]:
-                    mine_before = [(tuple(k), p) for k, p in before["sbuf"] if k[0] == f[0]]
-                    mine_after = [(tuple(k), p) for k, p in o["sbuf"] if k[0] == f[0]]
-                    ok_written = [w[0] for w in o["writes"] if w[1] and w[0].split(";")[2] == "1"]
-                    failed = [w for w in o["writes"] if not w[1]]
-                    want_all = sorted(f"{k[0]};{k[1]};1;{k[2]};{p}" for k, p in mine_before)
-                    got_all = sorted([re.sub(r"^(\d+;\d+;1);[01];(.*)\n$", r"\1;\2", w) for w in ok_written]
-                                     + [f"{k[0]};{k[1]};1;{k[2]};{p}" for k, p in mine_after])
-                    if want_all != got_all:
-                        corr.violate("buffered commands were lost or repeated when a write failed during the release", {**case, "before": want_all, "after+written": got_all})
-                        break
-                    if failed and o["out"] != abort_outcome(op[2], o["writes"]):
-                        corr.violate("a write that did not complete during the release (failed, or the listener cancelled "
-                                     "there) was not reported to the caller of listen as such", case)
-                        break
-                    others_b = [x for x in before["sbuf"] if x[0][0] != f[0]]
-                    others_a = [x for x in o["sbuf"] if x[0][0] != f[0]]
-                    if others_b != others_a:
-                        corr.violate("the release touched another node's buffered commands", case)
-                        break
+        _c08_oracle(corr, h, io)
     account(corr, hists, impl, lambda h, op, before, o: any(not w[1] for w in o["writes"]))
-    _failing_wake_across_sessions(corr)
+    _failing_wake_across_sessions(corr, ctx)
     corr.exhaustive = ctx.tier == "thorough"
     return corr
 
 
-def _failing_wake_across_sessions(corr: Corr) -> None:
-    """The failure is reported to the caller of listen — who may let it leave the gateway context and enter it again
-    (a reconnect).  Commands not yet written must still be written at a later wake, nothing twice."""
+def c08_session_scenarios(ctx=None):
+    """Real `async with gateway:` statements: 2-3 commands parked for one node (or 2 + 2 for two nodes) x the position of
+    the write of node 1's release that does not complete x failed / listener cancelled x the error leaves the
+    statement or is handled inside it x the commands were sent inside the same statement or an earlier one x the same
+    object entered again 1-3 times before the node wakes again x with / without a persistence file."""
+    out = []
+    count = 0
+    for v in V20:
+        for cmds in ([(1, 0), (1, 1)], [(1, 0), (1, 1), (1, 2)], [(1, 0), (2, 0), (1, 1), (2, 1)]):
+            mine = sum(1 for n, _ in cmds if n == 1)
+            for fail_at in range(mine):
+                for kind in (True, gw.CANCEL):
+                    for escape in (True, False):
+                        for store in (True, False):
+                            count += 1
+                            out.append({"version": v, "commands": [list(c) for c in cmds], "failing_write": fail_at,
+                                        "fault": "cancelled" if kind == gw.CANCEL else "failed", "error_left_the_context": escape,
+                                        "persistence_file": store, "reenters": 1 + count % 3,
+                                        "sent_in_the_same_context": (count // 3) % 2 == 0})
+    return out
+
+
+async def c08_session_case(sc):
+    """One scenario of `c08_session_scenarios` on the real gateway: (what is wrong | None, trace)."""
     import asyncio
 
     from aiomysensors import exceptions as exc
     from aiomysensors.model.message import Message
 
+    v = sc["version"]
+    nodes = sorted({n for n, _ in sc["commands"]})
+    h = Hist(v, True, [("node", n, 17, "2.0", "", "", 0, 0, False, True) for n in nodes]
+             + [("child", n, c, c, 3, "") for n, c in sc["commands"]])
+    path = gw._new_file() if sc["persistence_file"] else None
+    g, tr = gw.build_gateway(h, persistence_file=path)
+    if path is not None:
+        gw._inline_files(asyncio.get_running_loop())
+    sent, trace = [], []
+
+    def wake(n):
+        return wake_op(v, n)[1] + "\n"
+
+    async def entered():
+        if path is not None:
+            await gw.settle(g, path)
+
+    async def interrupted_wake():
+        """Node 1 wakes and one write of the release does not complete; the error leaves this coroutine (and with it the
+        `async with` statement around the call) or is handled here."""
+        tr.attempts = []
+        tr.lines = [wake(1)]
+        tr.faults = [False] * sc["failing_write"] + [gw.CANCEL if sc["fault"] == "cancelled" else True]
+        if sc["error_left_the_context"]:
+            await anext(g.listen())
+            return None
+        try:
+            await anext(g.listen())
+        except (exc.TransportError, asyncio.CancelledError) as e:
+            return e
+        return None
+
+    same = sc.get("sent_in_the_same_context", False)
+    reported = None
+    try:
+        try:
+            async with g:
+                await entered()
+                for n, c in sc["commands"]:
+                    await g.send(Message(n, c, 1, 0, 2, f"v{n}{c}"))
+                    sent.append(f"{n};{c};1;0;2;v{n}{c}\n")
+                trace.append({"context": "commands sent", "writes": [list(w) for w in tr.attempts]})
+                if same:
+                    reported = await interrupted_wake()
+            if not same:
+                async with g:
+                    await entered()
+                    reported = await interrupted_wake()
+        except (exc.TransportError, asyncio.CancelledError) as e:
+            reported = e
+        trace.append({"context": "node 1 wakes, a write does not complete", "reported": repr(reported), "writes": [list(w) for w in tr.attempts]})
+        for _ in range(sc["reenters"] - 1):
+            async with g:
+                await entered()
+        for n in nodes + [1]:
+            k = len(tr.attempts)
+            tr.lines, tr.faults = [wake(n)], []
+            async with g:
+                await entered()
+                try:
+                    await anext(g.listen())
+                except exc.AIOMySensorsError as e:
+                    trace.append({"context": f"node {n} wakes", "error": repr(e)})
+            trace.append({"context": f"node {n} wakes", "writes": [list(w) for w in tr.attempts[k:]]})
+    finally:
+        if path is not None:
+            try:
+                os.unlink(path)
+            except OSError:
+                pass
+    ok_writes = [w[0] for w in tr.attempts if w[1] and w[0].split(";")[2] == "1"]
+    want = type(reported).__name__ if reported is not None else None
+    interrupted = any(not w[1] for w in tr.attempts)
+    if interrupted and (reported is None or (sc["fault"] == "cancelled") != isinstance(reported, asyncio.CancelledError)):
+        return f"an interrupted write during the release was not reported to the caller of listen as such (reported: {want})", trace
+    if sorted(ok_writes) != sorted(sent):
+        lost = [x for x in sent if x not in ok_writes]
+        return ("after an interrupted release (and leaving / re-entering the gateway context) the buffered commands were not "
+                "each written exactly once: " + (f"never written {lost}" if lost else "written more than once")), trace
+    return None, trace
+
+
+def _failing_wake_across_sessions(corr: Corr, ctx=None) -> None:
+    """The failure is reported to the caller of listen - who may let it leave the gateway context and enter it again
+    (a reconnect).  Commands not yet written must still be written at a later wake, nothing twice."""
+    import asyncio
+
+    scs = c08_session_scenarios(ctx)
+    if ctx is not None and ctx.tier == "quick":
+        scs = scs[ctx.seed % 3::3]
+
     async def go():
-        for v in V20:
-            wake = f"1;255;3;0;{32 if v == '2.2' else 22};5\n"
-            for n_cmds in (2, 3):
-                for fail_at in range(n_cmds):
-                    for escape in (True, False):
-                        h = Hist(v, True, [("node", 1, 17, "2.0", "", "", 0, 0, False, True)])
-                        g, tr = gw.build_gateway(h)
-                        sent = []
-                        async with g:
-                            for i in range(n_cmds):
-                                m = Message(1, i, 1, 0, 2, f"v{i}")
-                                await g.send(m)
-                                sent.append(f"1;{i};1;0;2;v{i}\n")
-                        tr.attempts = []
-                        tr.lines, tr.faults = [wake], [False] * fail_at + [True]
-                        reported = None
-                        try:
-                            async with g:
-                                if escape:
-                                    await anext(g.listen())
-                                else:
-                                    try:
-                                        await anext(g.listen())
-                                    except exc.TransportError as e:
-                                        reported = e
-                        except exc.TransportError as e:
-                            reported = e
-                        for _ in range(2):
-                            tr.lines, tr.faults = [wake], []
-                            async with g:
-                                try:
-                                    await anext(g.listen())
-                                except exc.AIOMySensorsError:
-                                    pass
-                        ok_writes = [w[0] for w in tr.attempts if w[1] and w[0].split(";")[2] == "1"]
-                        case = {"version": v, "commands": sent, "failing_write": fail_at, "error_left_the_context": escape,
-                                "writes": [list(w) for w in tr.attempts]}
-                        if reported is None:
-                            corr.violate("a failing write during the release was not reported to the caller of listen", case)
-                        if sorted(ok_writes) != sorted(sent):
-                            corr.violate("after a failing release (and leaving / re-entering the gateway context) the buffered "
-                                         "commands were not each written exactly once", case)
-                        corr.case(("sessions", v, n_cmds, fail_at, escape), True, None)
-                        corr.count("failing-wake-across-sessions")
+        for sc in scs:
+            what, trace = await c08_session_case(sc)
+            if what is not None:
+                corr.violate(what, {"c08_sessions": sc, "trace": trace})
+            corr.case(("sessions", json.dumps(sc, sort_keys=True)), True, None)
+            corr.count("failing-wake-across-sessions" + (" (persistence file)" if sc["persistence_file"] else ""))
     asyncio.run(go())
 
 
@@ -3222,7 +3419,7 @@ def run_both_pieces(hists, corr: Corr, ctx, view: str, what: str, workers: int =
         pos += len(ml)
         for i, (o, (mout, mstate)) in enumerate(zip(io, mo)):
             iout = o["out"] + gw.render_writes(o["writes"]) if i else "init W"
-            a, bb = project(view, iout, o["state"]), project(view, mout, mstate)
+            a, bb = project(view, iout, o["state"]), project(view, mout, gw.align_state(o["state"], mstate))
             if a != bb:
                 short = Hist(h.version, h.metric, h.preload, h.ops[:i])
                 corr.disagree(what, {"history": short.to_json(), "step": i, "view": view, "impl": list(a), "model": list(bb)})
